@@ -632,6 +632,22 @@ mod real {
             "chaos" => Some(DSTConfig::chaos(seed)),
             // more nodes, shorter recoveries: several nodes are down at once far more often
             "chaos9" => Some(DSTConfig::chaos(seed).with_nodes(9)),
+            // a GENERATED configuration (beyond the presets), a function of the seed
+            "gen" => {
+                let mut r = Rng::new(seed ^ 0xD57);
+                let mut fc = FaultConfig::new();
+                fc.global_multiplier = *r.pick(&[0.1, 1.0, 3.0]);
+                fc.set(faults::process::CRASH, *r.pick(&[0.0, 0.001, 0.01, 0.05, 0.2, 0.5]));
+                let min_rec = *r.pick(&[0u64, 1, 100, 3000]);
+                let mut c = DSTConfig::new(seed).with_nodes(1 + r.below(12) as usize).with_faults(fc)
+                    .with_max_time(*r.pick(&[500u64, 5_000, 60_000])).with_clock_skew(r.chance(1, 2));
+                c.crash_config.min_recovery_time_ms = min_rec;
+                c.crash_config.max_recovery_time_ms = min_rec + *r.pick(&[0u64, 1, 100, 5000]);
+                c.crash_config.enable_buggify_crashes = !r.chance(1, 8);
+                c.max_clock_skew_ms = *r.pick(&[0i64, 1, 500, 1000]);
+                c.max_clock_drift_ppm = *r.pick(&[0i64, 1000, 5000]);
+                Some(c)
+            }
             _ => None,
         }
     }
@@ -715,6 +731,11 @@ mod real {
             "default" => Some(ListDSTConfig::new(seed)),
             "high_churn" => Some(ListDSTConfig::high_churn(seed)),
             "modify_heavy" => Some(ListDSTConfig::modify_heavy(seed)),
+            "gen" => {
+                let mut r = Rng::new(seed ^ 0x715);
+                let f = |r: &mut Rng| r.below(60) as f64 / 100.0;
+                Some(ListDSTConfig { seed, num_values: 1 + r.below(300) as usize, pop_prob: f(&mut r), left_prob: r.below(101) as f64 / 100.0, lset_prob: f(&mut r) / 3.0, trim_prob: f(&mut r) / 4.0 })
+            }
             _ => None,
         }
     }
@@ -724,6 +745,10 @@ mod real {
             "small_members" => Some(SetDSTConfig::small_members(seed)),
             "high_churn" => Some(SetDSTConfig::high_churn(seed)),
             "large_members" => Some(SetDSTConfig::large_members(seed)),
+            "gen" => {
+                let mut r = Rng::new(seed ^ 0x5E7);
+                Some(SetDSTConfig { seed, num_members: 1 + r.below(700) as usize, remove_prob: r.below(101) as f64 / 100.0 })
+            }
             _ => None,
         }
     }
@@ -732,6 +757,10 @@ mod real {
             "default" => Some(HashDSTConfig::new(seed)),
             "small_fields" => Some(HashDSTConfig::small_fields(seed)),
             "high_churn" => Some(HashDSTConfig::high_churn(seed)),
+            "gen" => {
+                let mut r = Rng::new(seed ^ 0x4A5);
+                Some(HashDSTConfig { seed, num_fields: 1 + r.below(300) as usize, num_values: 1 + r.below(100) as usize, delete_prob: r.below(101) as f64 / 100.0, update_prob: 0.3 })
+            }
             _ => None,
         }
     }
@@ -740,6 +769,11 @@ mod real {
             "default" => Some(TransactionDSTConfig::new(seed)),
             "high_conflict" => Some(TransactionDSTConfig::high_conflict(seed)),
             "error_heavy" => Some(TransactionDSTConfig::error_heavy(seed)),
+            "gen" => {
+                let mut r = Rng::new(seed ^ 0x7A0);
+                let f = |r: &mut Rng| r.below(34) as f64 / 100.0;
+                Some(TransactionDSTConfig { seed, num_keys: 1 + r.below(60) as usize, conflict_prob: f(&mut r), discard_prob: f(&mut r), error_prob: f(&mut r) })
+            }
             _ => None,
         }
     }
@@ -748,6 +782,10 @@ mod real {
             "default" => Some(SortedSetDSTConfig::new(seed)),
             "small_keyspace" => Some(SortedSetDSTConfig::small_keyspace(seed)),
             "large_keyspace" => Some(SortedSetDSTConfig::large_keyspace(seed)),
+            "gen" => {
+                let mut r = Rng::new(seed ^ 0x25E);
+                Some(SortedSetDSTConfig { seed, num_keys: 1 + r.below(1500) as usize, update_prob: 0.3, remove_prob: r.below(101) as f64 / 100.0, max_score: *r.pick(&[0.01, 1.0, 100.0, 1000.0, 100000.0]) })
+            }
             _ => None,
         }
     }
@@ -760,6 +798,22 @@ mod real {
                     "calm" => ExecutorDSTConfig::calm(seed),
                     "chaos" => ExecutorDSTConfig::chaos(seed),
                     "string_heavy" => ExecutorDSTConfig::string_heavy(seed),
+                    "gen" => {
+                        let mut r = Rng::new(seed ^ 0xE8E);
+                        let mut w = |r: &mut Rng| if r.chance(1, 4) { 0 } else { r.below(60) };
+                        let mut c = ExecutorDSTConfig::new(seed);
+                        c.num_keys = 1 + r.below(200) as usize;
+                        c.num_values = 1 + r.below(80) as usize;
+                        c.num_fields = 1 + r.below(40) as usize;
+                        c.weight_string = w(&mut r);
+                        c.weight_key = w(&mut r);
+                        c.weight_list = w(&mut r);
+                        c.weight_set = w(&mut r);
+                        c.weight_hash = w(&mut r);
+                        c.weight_sorted_set = w(&mut r);
+                        c.weight_expiry = 1 + w(&mut r);
+                        c
+                    }
                     _ => return false,
                 };
                 let mut h = ExecutorDSTHarness::new(cfg);
@@ -919,6 +973,26 @@ mod real {
         }
     }
 
+    /// GENERATED WAL DST configuration (a function of the seed): file sizes around the entry
+    /// size (one entry per file … never rotating), extreme fault rates
+    pub fn wal_config_for(preset: &str, seed: u64) -> Option<WalDSTConfig> {
+        if preset != "gen" {
+            return wal_config(preset);
+        }
+        let mut r = Rng::new(seed ^ 0x3A1);
+        let p = [0.0, 0.01, 0.05, 0.3, 0.9];
+        let mut c = WalDSTConfig::default();
+        c.num_writes = *r.pick(&[1usize, 5, 100, 400]);
+        c.max_file_size = *r.pick(&[17usize, 100, 113, 114, 512, 4096, 1 << 20]);
+        c.store_config.write_fail_prob = *r.pick(&p);
+        c.store_config.partial_write_prob = *r.pick(&p);
+        c.store_config.fsync_fail_prob = *r.pick(&p);
+        c.store_config.disk_full_prob = *r.pick(&p);
+        c.simulate_crash = r.chance(2, 3);
+        c.fsync_after_write = r.chance(2, 3);
+        Some(c)
+    }
+
     /// encoded length of the entry the harness writes for timestamp `ts` (its private
     /// `make_test_delta`, rebuilt from the public constructors)
     pub fn wal_entry_len(ts: u64) -> usize {
@@ -930,11 +1004,24 @@ mod real {
     }
 
     pub fn wal(preset: &str, seed: u64, lines: &mut Vec<String>) -> bool {
-        let Some(cfg) = wal_config(preset) else { return false };
+        let Some(cfg) = wal_config_for(preset, seed) else { return false };
         let mut h = WalDSTHarness::new(seed, cfg);
         let r = h.run();
         lines.push(format!("{:?}", r));
         true
+    }
+
+    fn gen_store(r: &mut Rng, sc: &mut redis_sim::streaming::SimulatedStoreConfig) {
+        let p = [0.0, 0.01, 0.1, 0.4];
+        sc.put_fail_prob = *r.pick(&p);
+        sc.get_fail_prob = *r.pick(&p);
+        sc.get_corrupt_prob = *r.pick(&[0.0, 0.0, 0.05]);
+        sc.timeout_prob = *r.pick(&p);
+        sc.partial_write_prob = *r.pick(&p);
+        sc.delete_fail_prob = *r.pick(&p);
+        sc.list_incomplete_prob = *r.pick(&p);
+        sc.rename_fail_prob = *r.pick(&p);
+        sc.latency_range_us = *r.pick(&[(0u64, 0u64), (100, 10_000), (5, 5)]);
     }
 
     fn paused_runtime() -> tokio::runtime::Runtime {
@@ -948,6 +1035,17 @@ mod real {
             "calm" => StreamingDSTConfig::calm(seed),
             "moderate" => StreamingDSTConfig::moderate(seed),
             "chaos" => StreamingDSTConfig::chaos(seed),
+            "gen" => {
+                let mut r = Rng::new(seed ^ 0x57E);
+                let mut c = StreamingDSTConfig::new(seed);
+                gen_store(&mut r, &mut c.store_config);
+                c.write_buffer_config.max_deltas = *r.pick(&[1usize, 3, 100]);
+                c.write_buffer_config.max_size_bytes = *r.pick(&[64usize, 1024, 65536]);
+                c.write_buffer_config.backpressure_threshold_bytes = *r.pick(&[128usize, 4096, 262144]);
+                c.flush_probability = *r.pick(&[0.0, 0.1, 0.5, 0.9]);
+                c.crash_probability = *r.pick(&[0.0, 0.02, 0.3]);
+                c
+            }
             _ => return false,
         };
         paused_runtime().block_on(async {
@@ -970,6 +1068,19 @@ mod real {
             "calm" => CompactionDSTConfig::calm(seed),
             "aggressive" => CompactionDSTConfig::aggressive(seed),
             "chaos" => CompactionDSTConfig::chaos(seed),
+            "gen" => {
+                let mut r = Rng::new(seed ^ 0xC03);
+                let mut c = CompactionDSTConfig::new(seed);
+                gen_store(&mut r, &mut c.store_config);
+                c.write_buffer_config.max_deltas = *r.pick(&[1usize, 3, 100]);
+                c.compaction_config.max_segments = *r.pick(&[1usize, 2, 5, 10]);
+                c.compaction_config.min_segments_to_compact = *r.pick(&[1usize, 2, 5]);
+                c.compaction_config.max_segments_per_compaction = *r.pick(&[1usize, 2, 5, 50]);
+                c.compaction_config.target_segment_size = *r.pick(&[1usize, 256, 1024, 1 << 20]);
+                c.flush_probability = *r.pick(&[0.1, 0.3, 0.6]);
+                c.compact_probability = *r.pick(&[0.05, 0.3, 0.4]);
+                c
+            }
             _ => return false,
         };
         paused_runtime().block_on(async {
@@ -1053,6 +1164,199 @@ mod real {
         true
     }
 
+    pub const BURSTS: [u64; 8] = [1, 10, 99, 100, 101, 130, 500, 1100];
+
+    fn mn_fingerprint(sim: &MultiNodeSimulation, lines: &mut Vec<String>, what: &str) {
+        let clocks: Vec<String> = sim.nodes.iter().map(|nd| nd.replica_state.lamport_clock.time.to_string()).collect();
+        let pend: Vec<String> = sim.nodes.iter().map(|nd| nd.replica_state.pending_deltas.len().to_string()).collect();
+        lines.push(format!("{} clocks={} pending={} queue={}", what, clocks.join(","), pend.join(","), sim.message_queue.len()));
+    }
+
+    fn mn_messages(sim: &MultiNodeSimulation, lines: &mut Vec<String>) {
+        for m in &sim.message_queue {
+            let keys: Vec<String> = m.deltas.iter().map(|d| format!("{}@{}", d.key, d.value.timestamp.time)).collect();
+            lines.push(format!("  in-flight {}->{} at {}: {}", m.from, m.to, m.delivery_time.as_millis(), keys.join(",")));
+        }
+    }
+
+    /// how many keys of the pool differ (stamp) between two nodes: the size of the next sync
+    fn mn_divergent(sim: &MultiNodeSimulation, keys: &[String], a: usize, b: usize) -> usize {
+        keys.iter().filter(|k| {
+            let x = sim.nodes[a].replica_state.get_replicated(k).map(|v| (v.timestamp.time, v.timestamp.replica_id.0));
+            let y = sim.nodes[b].replica_state.get_replicated(k).map(|v| (v.timestamp.time, v.timestamp.replica_id.0));
+            x != y
+        }).count()
+    }
+
+    fn mn_div_class(d: usize) -> &'static str {
+        if d > 1000 { ">1000(limit)" } else if d > 100 { "101-1000" } else if d > 1 { "2-100" } else { "0-1" }
+    }
+
+    fn mn_final(sim: &mut MultiNodeSimulation, keys: &[String], lines: &mut Vec<String>) {
+        let n = sim.nodes.len();
+        for a in 0..n {
+            for b in (a + 1)..n {
+                sim.heal_partition(a, b);
+            }
+        }
+        let conv = sim.converge(20);
+        for (i, key) in keys.iter().enumerate() {
+            let per: Vec<String> = sim.nodes.iter().map(|nd| match nd.replica_state.get_replicated(key) {
+                Some(rv) => format!("{:?}@{}.{}{}", nd.get_replicated_value(key), rv.timestamp.time, rv.timestamp.replica_id.0, if rv.is_tombstone() { "T" } else { "" }),
+                None => "-".to_string(),
+            }).collect();
+            if per.iter().any(|x| x != "-") {
+                let lin = if i < 8 { format!(" lin={}", check_single_key_linearizability(&sim.history, key).is_linearizable) } else { String::new() };
+                lines.push(format!("final {} {} conv={}{}", key, per.join(" | "), sim.check_key_convergence(key), lin));
+            }
+        }
+        mn_fingerprint(sim, lines, &format!("result converge={} history={}", conv, sim.history.len()));
+    }
+
+    /// GENERATED multi-node scenarios: the public API driven by a scenario that is a function of
+    /// the seed — write bursts on one node between two gossip rounds with lengths around the
+    /// pending-delta limit (100) and the anti-entropy limit (1000 keys per sync), key pools of
+    /// 1 / 60 / 150 / 1300 keys, 2–5 nodes, broadcast or selective routing, partitions, every
+    /// anti-entropy entry point, converge.  Full fingerprint: replies, in-flight messages with
+    /// the order of their deltas, Lamport clocks, pending queue lengths, per-key winners with
+    /// stamps on every node, verdicts.  `raw` gets `shape …` lines (the scenario's shape).
+    pub fn multi_node_gen(preset: &str, seed: u64, steps: usize, lines: &mut Vec<String>, raw: &mut Vec<String>) -> bool {
+        if preset == "corpus-backlog130" {
+            return multi_node_corpus_backlog(seed, lines, raw);
+        }
+        if preset == "corpus-sync1100" {
+            // more divergent keys than max_keys_per_sync (1000) at one anti-entropy exchange
+            let mut sim = MultiNodeSimulation::new(3, seed);
+            let keys: Vec<String> = (0..1100).map(|i| format!("k{:04}", (i * 7919) % 1100)).collect();
+            sim.partition(0, 1);
+            sim.partition(0, 2);
+            for (i, k) in keys.iter().enumerate() {
+                sim.execute(0, 0, Command::set(k.clone(), SDS::from_str(&format!("v{}", i))));
+            }
+            raw.push("shape burst=1100".into());
+            raw.push(format!("shape sync-divergent-keys={}", mn_div_class(mn_divergent(&sim, &keys, 0, 1))));
+            mn_fingerprint(&sim, lines, "isolated-writes");
+            sim.heal_partition(0, 1);
+            mn_fingerprint(&sim, lines, "heal 0 1");
+            sim.run_anti_entropy_sync(0, 2);
+            mn_fingerprint(&sim, lines, "sync 0 2");
+            let mut sorted = keys.clone();
+            sorted.sort();
+            let have: Vec<usize> = (0..3).map(|n| sorted.iter().filter(|k| sim.nodes[n].replica_state.get_replicated(k).is_some()).count()).collect();
+            lines.push(format!("keys-present {:?}", have));
+            // which keys crossed in the limited exchange
+            let got: Vec<&String> = sorted.iter().filter(|k| sim.nodes[1].replica_state.get_replicated(k).is_some()).collect();
+            lines.push(format!("node1 first={:?} last={:?}", got.first(), got.last()));
+            mn_final(&mut sim, &sorted, lines);
+            return true;
+        }
+        let mut r = Rng::new(seed ^ 0x6E4);
+        let n = 2 + r.below(4) as usize;
+        let loss = *r.pick(&[0.0, 0.0, 0.1, 0.3]);
+        let mut sim = match preset {
+            "gen-broadcast" => MultiNodeSimulation::new(n, seed).with_packet_loss(loss),
+            "gen-no-auto-ae" => MultiNodeSimulation::new_without_anti_entropy(n, seed).with_packet_loss(loss),
+            "gen-partitioned" => MultiNodeSimulation::new_partitioned(n.max(3), 2, seed).with_packet_loss(loss),
+            _ => return false,
+        };
+        let n = sim.nodes.len();
+        let big = r.chance(1, 6);
+        let pool: u64 = if big { 1300 } else { *r.pick(&[1u64, 60, 150]) };
+        let keys: Vec<String> = (0..pool).map(|i| format!("k{:04}", i)).collect();
+        let mut counter = 0u64;
+        let mut overflowed = vec![0u64; n];
+        let mut hwm = vec![0usize; n];
+        raw.push(format!("shape nodes={} pool={} mode={} loss={}", n, pool, preset, loss));
+        for k in 1..=steps {
+            let what = r.below(100);
+            if what < 45 {
+                let node = r.below(n as u64) as usize;
+                let len = if big && r.chance(1, 2) { 1100 } else { *r.pick(&BURSTS[..7]) };
+                let spread = if r.chance(1, 3) { pool } else { pool.min(1 + r.below(pool)) };
+                let base = r.below(pool);
+                let mut replies = 0u64;
+                for _ in 0..len {
+                    let key = keys[((base + r.below(spread)) % pool) as usize].clone();
+                    counter += 1;
+                    if sim.nodes[node].replica_state.pending_deltas.len() >= 100 {
+                        overflowed[node] += 1;
+                    }
+                    let cmd = if r.chance(1, 20) { Command::Del(vec![key]) } else { Command::set(key, SDS::from_str(&format!("v{}", counter))) };
+                    let resp = sim.execute(k % 3, node, cmd);
+                    replies = replies.wrapping_mul(31).wrapping_add(format!("{:?}", resp).len() as u64);
+                    hwm[node] = hwm[node].max(sim.nodes[node].replica_state.pending_deltas.len());
+                }
+                raw.push(format!("shape burst={}", len));
+                mn_fingerprint(&sim, lines, &format!("{} burst n{} len={} replies={}", k, node, len, replies));
+            } else if what < 70 {
+                sim.advance_time_ms(1 + r.below(15));
+                sim.gossip_round();
+                mn_fingerprint(&sim, lines, &format!("{} gossip", k));
+                mn_messages(&sim, lines);
+            } else if what < 78 {
+                let (a, b) = (r.below(n as u64) as usize, r.below(n as u64) as usize);
+                if a != b { sim.partition(a, b); }
+                mn_fingerprint(&sim, lines, &format!("{} partition {} {}", k, a, b));
+            } else if what < 86 {
+                let (a, b) = (r.below(n as u64) as usize, r.below(n as u64) as usize);
+                if a != b {
+                    raw.push(format!("shape sync-divergent-keys={}", mn_div_class(mn_divergent(&sim, &keys, a, b))));
+                    sim.heal_partition(a, b);
+                }
+                mn_fingerprint(&sim, lines, &format!("{} heal {} {}", k, a, b));
+            } else if what < 92 {
+                let (a, b) = (r.below(n as u64) as usize, r.below(n as u64) as usize);
+                if a != b {
+                    raw.push(format!("shape sync-divergent-keys={}", mn_div_class(mn_divergent(&sim, &keys, a, b))));
+                    sim.run_anti_entropy_sync(a, b);
+                }
+                mn_fingerprint(&sim, lines, &format!("{} anti-entropy-sync {} {}", k, a, b));
+            } else if what < 96 {
+                raw.push(format!("shape sync-divergent-keys={}", mn_div_class(mn_divergent(&sim, &keys, 0, 1))));
+                sim.run_full_anti_entropy();
+                mn_fingerprint(&sim, lines, &format!("{} full-anti-entropy", k));
+            } else {
+                let c = sim.converge(1 + r.below(5) as usize);
+                mn_fingerprint(&sim, lines, &format!("{} converge {}", k, c));
+            }
+        }
+        for i in 0..n {
+            raw.push(format!("shape pending-hwm={} overflow={}", if hwm[i] >= 100 { "100(cap)" } else if hwm[i] >= 50 { "50-99" } else { "<50" }, if overflowed[i] > 0 { ">0" } else { "0" }));
+        }
+        mn_final(&mut sim, &keys, lines);
+        true
+    }
+
+    /// corpus case (round-4 seed "pending deltas coalesced through a HashMap"): one node takes 130
+    /// writes over 60 keys with no gossip round in between, the backlog is gossiped, then two
+    /// nodes write the same keys concurrently
+    fn multi_node_corpus_backlog(seed: u64, lines: &mut Vec<String>, raw: &mut Vec<String>) -> bool {
+        let mut sim = MultiNodeSimulation::new(3, seed);
+        for i in 0..130u64 {
+            sim.execute(0, 0, Command::set(format!("k{:02}", i % 60), SDS::from_str(&format!("v{}", i))));
+        }
+        raw.push("shape burst=130".into());
+        raw.push("shape pending-hwm=100(cap) overflow=>0".into());
+        mn_fingerprint(&sim, lines, "backlog");
+        for round in 0..4 {
+            sim.advance_time_ms(10);
+            sim.gossip_round();
+            mn_fingerprint(&sim, lines, &format!("gossip {}", round));
+            mn_messages(&sim, lines);
+        }
+        for j in 0..33u64 {
+            sim.execute(1, 0, Command::set(format!("warm-a{:02}", j), SDS::from_str("x")));
+            sim.execute(1, 0, Command::set(format!("warm-b{:02}", j), SDS::from_str("x")));
+            sim.execute(1, 0, Command::set(format!("c{:02}", j), SDS::from_str("from-node-0")));
+            sim.execute(2, 1, Command::set(format!("c{:02}", j), SDS::from_str("from-node-1")));
+        }
+        mn_fingerprint(&sim, lines, "conflict-writes");
+        let mut keys: Vec<String> = (0..60).map(|i| format!("k{:02}", i)).collect();
+        keys.extend((0..33).map(|j| format!("c{:02}", j)));
+        mn_final(&mut sim, &keys, lines);
+        true
+    }
+
     pub fn partition(preset: &str, seed: u64, lines: &mut Vec<String>) -> bool {
         let n = 5usize;
         let cfg = match preset {
@@ -1133,6 +1437,18 @@ pub struct Trace {
 
 /// the canonical trace of one real harness run, in THIS process
 pub fn harness_trace(harness: &str, preset: &str, seed: u64, ops: usize) -> Option<Trace> {
+    // a generated configuration may make a harness panic: that is an outcome (it must be the same
+    // outcome in every process), not a failure of the check
+    match catch_unwind(AssertUnwindSafe(|| harness_trace_inner(harness, preset, seed, ops))) {
+        Ok(t) => t,
+        Err(e) => {
+            let msg = e.downcast_ref::<String>().cloned().or_else(|| e.downcast_ref::<&str>().map(|x| x.to_string())).unwrap_or_default();
+            Some(Trace { lines: vec![format!("panic: {}", msg.replace('\n', " "))], raw: vec!["shape panic".into()], pi: vec![] })
+        }
+    }
+}
+
+fn harness_trace_inner(harness: &str, preset: &str, seed: u64, ops: usize) -> Option<Trace> {
     let mut t = Trace::default();
     let ok = if harness.starts_with("crdt-") {
         real::crdt(harness, preset, seed, ops, &mut t.lines, &mut t.raw)
@@ -1145,6 +1461,7 @@ pub fn harness_trace(harness: &str, preset: &str, seed: u64, ops: usize) -> Opti
             "streaming" => real::streaming(preset, seed, ops, &mut t.lines),
             "compaction" => real::compaction(preset, seed, ops, &mut t.lines),
             "multi-node" => real::multi_node(preset, seed, ops, &mut t.lines),
+            "multi-node-gen" => real::multi_node_gen(preset, seed, ops, &mut t.lines, &mut t.raw),
             "partition" => real::partition(preset, seed, &mut t.lines),
             "connection" => real::pipeline(seed, &mut t.lines),
             "scenario" => real::scenario(preset, seed, ops, &mut t.lines),
@@ -1265,7 +1582,7 @@ fn cfg_numbers(harness: &str, preset: &str, seed: u64) -> Option<String> {
         _ => {}
     }
     if harness == "wal" {
-        let c = real::wal_config(preset)?;
+        let c = real::wal_config_for(preset, seed)?;
         let sc = &c.store_config;
         // `ser`: the encoded length of the entries the harness writes, from the real serializer
         let l: Vec<String> = [1u64, 10, 100].iter().map(|ts| real::wal_entry_len(*ts).to_string()).collect();
@@ -1331,20 +1648,21 @@ const FAMILIES: &[Family] = &[
     Family { name: "crdt-pncounter", presets: &["calm", "moderate", "chaos"], ops: 200, modelled: true, quick_presets: 3 },
     Family { name: "crdt-orset", presets: &["calm", "moderate", "chaos"], ops: 200, modelled: true, quick_presets: 3 },
     Family { name: "crdt-vclock", presets: &["calm", "moderate", "chaos"], ops: 200, modelled: true, quick_presets: 3 },
-    Family { name: "dst", presets: &["chaos", "chaos9", "default", "calm"], ops: 400, modelled: true, quick_presets: 4 },
+    Family { name: "dst", presets: &["chaos", "chaos9", "default", "calm", "gen"], ops: 400, modelled: true, quick_presets: 5 },
     Family { name: "sim-executor", presets: &["script"], ops: 0, modelled: false, quick_presets: 1 },
     Family { name: "redis-dst", presets: &["chaos", "moderate", "calm"], ops: 150, modelled: false, quick_presets: 2 },
-    Family { name: "executor", presets: &["default", "chaos", "calm", "string_heavy"], ops: 300, modelled: false, quick_presets: 2 },
-    Family { name: "list", presets: &["default", "high_churn", "modify_heavy"], ops: 300, modelled: true, quick_presets: 3 },
-    Family { name: "set", presets: &["default", "small_members", "high_churn", "large_members"], ops: 300, modelled: true, quick_presets: 4 },
-    Family { name: "hash", presets: &["default", "small_fields", "high_churn"], ops: 300, modelled: true, quick_presets: 3 },
-    Family { name: "sorted-set", presets: &["default", "small_keyspace", "large_keyspace"], ops: 300, modelled: true, quick_presets: 3 },
-    Family { name: "transaction", presets: &["default", "high_conflict", "error_heavy"], ops: 200, modelled: true, quick_presets: 3 },
+    Family { name: "executor", presets: &["default", "chaos", "gen", "calm", "string_heavy"], ops: 300, modelled: false, quick_presets: 3 },
+    Family { name: "list", presets: &["default", "high_churn", "modify_heavy", "gen"], ops: 300, modelled: true, quick_presets: 4 },
+    Family { name: "set", presets: &["default", "small_members", "high_churn", "large_members", "gen"], ops: 300, modelled: true, quick_presets: 5 },
+    Family { name: "hash", presets: &["default", "small_fields", "high_churn", "gen"], ops: 300, modelled: true, quick_presets: 4 },
+    Family { name: "sorted-set", presets: &["default", "small_keyspace", "large_keyspace", "gen"], ops: 300, modelled: true, quick_presets: 4 },
+    Family { name: "transaction", presets: &["default", "high_conflict", "error_heavy", "gen"], ops: 200, modelled: true, quick_presets: 4 },
     Family { name: "multi-node", presets: &["broadcast", "lossy", "partitioned", "no-anti-entropy"], ops: 250, modelled: false, quick_presets: 3 },
+    Family { name: "multi-node-gen", presets: &["corpus-backlog130", "corpus-sync1100", "gen-broadcast", "gen-partitioned", "gen-no-auto-ae"], ops: 18, modelled: false, quick_presets: 5 },
     Family { name: "partition", presets: &["isolate", "split_brain", "ring", "asymmetric"], ops: 0, modelled: false, quick_presets: 2 },
-    Family { name: "streaming", presets: &["moderate", "chaos", "calm", "default"], ops: 150, modelled: false, quick_presets: 2 },
-    Family { name: "compaction", presets: &["chaos", "aggressive", "calm", "default"], ops: 120, modelled: false, quick_presets: 2 },
-    Family { name: "wal", presets: &["chaos", "default", "crash_only", "baseline", "chaos_nofsync", "chaos_tiny_files"], ops: 0, modelled: true, quick_presets: 6 },
+    Family { name: "streaming", presets: &["moderate", "chaos", "gen", "calm", "default"], ops: 150, modelled: false, quick_presets: 3 },
+    Family { name: "compaction", presets: &["chaos", "aggressive", "gen", "calm", "default"], ops: 120, modelled: false, quick_presets: 3 },
+    Family { name: "wal", presets: &["chaos", "default", "crash_only", "baseline", "chaos_nofsync", "chaos_tiny_files", "gen"], ops: 0, modelled: true, quick_presets: 7 },
     Family { name: "connection", presets: &["pipeline"], ops: 0, modelled: false, quick_presets: 1 },
     Family { name: "scenario", presets: &["buggify", "plain"], ops: 120, modelled: false, quick_presets: 1 },
 ];
@@ -1440,8 +1758,15 @@ fn part_b(a: &Args, out: &mut Out) {
                 }
                 if all_same {
                     agree += 1;
+                } else {
+                    out.count(&format!("diverged:{}:{}", fam.name, preset));
                 }
                 out.count(&format!("harness:{}:{}", fam.name, preset));
+                for l in traces[0].raw.iter().filter(|l| l.starts_with("shape ")) {
+                    for tok in l.split(' ').skip(1) {
+                        out.count(&format!("scenario-shape:{}:{}", fam.name, tok));
+                    }
+                }
                 out.count_n(&format!("trace-lines:{}", fam.name), traces[0].lines.len() as u64);
                 let canon = format!("{} {} {} {}", fam.name, preset, seed, ops);
                 out.case(&canon, traces[0].lines.len() > 3 || fam.name == "wal");
